@@ -72,6 +72,7 @@ type World struct {
 	clockN  int
 	lastT   Value
 	Trace   bool // allow symbolic paths (events only)
+	TraceStatSeq string // trace mode: scripted os.Stat outcomes ("0"/"1" per call)
 	TraceStatFork bool // trace mode: os.Stat outcome is a symbolic boolean
 	WalkExtra []Value // trace mode: files visited by filepath.Walk
 	CmdExitFree bool  // vcmd exit status symbolic (default true)
@@ -231,7 +232,15 @@ func (m *Machine) fsStat(pv Value) (Value, Value) {
 			m.unsupported("os.Stat on symbolic path outside trace mode")
 		}
 		w.event(m, "stat", pv)
-		// trace mode: absent unless the harness asks for a symbolic outcome
+		// trace mode: scripted outcome, else absent unless the harness asks for a symbolic outcome
+		if len(w.TraceStatSeq) > 0 {
+			ex := w.TraceStatSeq[0] == '1'
+			w.TraceStatSeq = w.TraceStatSeq[1:]
+			if ex {
+				return Iface{T: m.extType("fileinfo"), V: &Ext{Kind: "fileinfo", F: map[string]Value{"isdir": false, "name": pv}}}, Iface{}
+			}
+			return Iface{}, m.errVal("ENOENT", "stat: no such file or directory")
+		}
 		if !w.TraceStatFork {
 			return Iface{}, m.errVal("ENOENT", "stat: no such file or directory")
 		}
